@@ -468,6 +468,40 @@ pub fn witnesses() -> Vec<(PolCase, Vec<usize>)> {
             ));
         }
     }
+    // a delete that carries no CAS, a store by another client at every point inside it: such a
+    // delete is never refused — it removes what is there when it comes, before or after the store
+    for split in 1..7usize {
+        let mut sched = vec![0; split];
+        sched.extend(vec![1; 12]);
+        sched.extend(vec![0; 12]);
+        v.push((
+            PolCase {
+                id: format!("w-delete-store-{}", split),
+                limit: 100_000,
+                prelude: vec![COp::Set(k.clone(), b"v1".to_vec(), 0, 0, 0)],
+                tick: 0,
+                threads: vec![vec![COp::Del(k.clone(), 0)], vec![COp::Set(k.clone(), b"v2".to_vec(), 0, 0, 0)]],
+            },
+            sched,
+        ));
+    }
+    // an item whose time has run out, two retrievals of it overlapping at every point: one of
+    // them collects it, neither finds it
+    for split in 1..6usize {
+        let mut sched = vec![0; split];
+        sched.extend(vec![1; 8]);
+        sched.extend(vec![0; 8]);
+        v.push((
+            PolCase {
+                id: format!("w-expired-get-get-{}", split),
+                limit: 100_000,
+                prelude: vec![COp::Set(b"n".to_vec(), b"7".to_vec(), 0, 5, 0)],
+                tick: 10,
+                threads: vec![vec![COp::Get(b"n".to_vec())], vec![COp::Get(b"n".to_vec())]],
+            },
+            sched,
+        ));
+    }
     v
 }
 
@@ -617,6 +651,32 @@ pub fn run_cases(seed: u64, cases: usize, fixed: Vec<(PolCase, Vec<usize>)>, tra
                         let answer = res.mresults.get(t).and_then(|r| r.get(j)).cloned().unwrap_or_default();
                         if there && answer.starts_with("err") {
                             let _ = writeln!(monitor, "VANISH {} base", case.id);
+                        }
+                    }
+                }
+            }
+        }
+        // a key that was only ever stored with a time to live that has run out when the window
+        // opens, and that no command of the window stores to: no retrieval finds it, whatever
+        // the others do meanwhile (collecting it, evicting it, deleting it)
+        if case.tick > 0 {
+            for (t, ops) in case.threads.iter().enumerate() {
+                for (j, o) in ops.iter().enumerate() {
+                    if let COp::Get(key) = o {
+                        let stores: Vec<(u32, u64)> = case.prelude.iter().filter_map(|p| match p {
+                            COp::Set(pk, _, _, ttl, c) if pk == key => Some((*ttl, *c)),
+                            _ => None,
+                        }).collect();
+                        let all_run_out = !stores.is_empty()
+                            && stores.iter().all(|(ttl, c)| *ttl > 0 && *ttl <= 2_592_000 && (*ttl as u64) < case.tick && *c == 0);
+                        let written = case.threads.iter().flatten().any(|w| match w {
+                            COp::Set(k, ..) | COp::Add(k, ..) | COp::Replace(k, ..) | COp::Append(k, ..) | COp::Prepend(k, ..) => k == key,
+                            COp::Delta(_, k, ..) => k == key,
+                            _ => false,
+                        });
+                        let answer = res.mresults.get(t).and_then(|r| r.get(j)).cloned().unwrap_or_default();
+                        if all_run_out && !written && answer.starts_with("hit") {
+                            let _ = writeln!(monitor, "GHOST {} base", case.id);
                         }
                     }
                 }
